@@ -22,7 +22,13 @@ TRUSTED_EXTRA = ["SuiteSparse/CHOLMOD as linked by the harness (external library
                  "tools/props/C17.py exact-rational transcription of GridModel.grid_spec (cross-checked every run against the extracted Qc definitions)"]
 
 STRICT_STYLES = ["uniform", "irregular", "irregular", "integer", "wild"]
-GRID_CLASSES = ["knot", "knot+", "knot-", "mid", "mid", "lmargin", "rmargin", "rand", "rand", "full_lo", "full_hi", "last", "first", "below", "above"]
+GRID_CLASSES = ["knot", "knot+", "knot-", "mid", "mid", "lmargin", "rmargin", "rand", "rand", "full_lo", "full_hi", "last", "first", "below", "above", "upper_knot"]
+
+def gen_coord17(rng, t, d, cls):
+    if cls == "upper_knot":         # exactly on a knot at or above knots[naxes] (the last knot included): where the basis is left-continuous
+        k = t.knots[d]
+        return k[rng.rint(len(k) - t.orders[d] - 1, len(k) - 1)]
+    return gen_coord(rng, t, d, cls)
 
 # ------------------------------------------------------------------------------------------------
 class Case:
@@ -48,7 +54,7 @@ def has_repeat(knots):
 def gen_case(rng, small=False, allow_repeated=True):
     ndim = rng.choice([1, 1, 2, 2, 2, 3, 3, 4])
     kind = "strict"
-    # repeated knots are routine since fix 33ef56f (splineutil.c:bspline skips vanishing denominators): about a quarter of the
+    # repeated knots are routine since fix 07dbb30 (splineutil.c:bspline skips vanishing denominators): about a quarter of the
     # tables carry them, in any dimension, with multiplicities up to and beyond order+1 (discontinuous splines)
     if allow_repeated and rng.chance(0.27):
         kind = "repeated"
@@ -75,6 +81,9 @@ def gen_case(rng, small=False, allow_repeated=True):
                 m = o + 1 + rng.below(2)
                 if m < len(ks) - 1:
                     j = rng.below(len(ks) - m)
+                    lo = max(0, len(ks) - o - 1 - m + 1)
+                    if rng.chance(0.5) and lo <= len(ks) - m - 1:
+                        j = rng.rint(lo, len(ks) - m - 1)      # the run reaches knots[naxes] or lies above it: a jump where the basis is left-continuous (former D30)
                     for q in range(j + 1, j + m):
                         ks[q] = ks[j]
                     for q in range(1, len(ks)):
@@ -117,7 +126,7 @@ def gen_case(rng, small=False, allow_repeated=True):
                 j = rng.below(len(g)); g.append(g[j]); cl.append(cl[j] + "*")     # repeated abscissa
             else:
                 c = rng.choice(GRID_CLASSES)
-                g.append(gen_coord(rng, t, d, c)); cl.append(c)
+                g.append(gen_coord17(rng, t, d, c)); cl.append(c)
         if rng.chance(0.3):
             order = sorted(range(n), key=lambda i: g[i])
             g = [g[i] for i in order]; cl = [cl[i] for i in order]
@@ -125,12 +134,16 @@ def gen_case(rng, small=False, allow_repeated=True):
     return Case(t, grids, small, classes, kind + "/" + style)
 
 # ------------------------------------------------------------------------------------------------
-# exact specification: right-continuous Cox-de Boor (0/0 := 0), sum over all coefficients — GridModel.grid_spec / grid_abs
-def basis_rc(knots, order, x):
+# exact specification: Cox-de Boor (0/0 := 0) with the one-sided convention of the evaluation properties (BSpline.side_of: right-continuous
+# below knots[naxes], naxes = nknots-order-1, left-continuous from there upwards), sum over all coefficients — GridModel.grid_spec / grid_abs
+def basis_side(knots, order, x):
     k = [Fraction(v) for v in knots]
     x = Fraction(x)
     n = len(k)
-    cur = [Fraction(1) if (k[i] <= x < k[i + 1]) else Fraction(0) for i in range(n - 1)]
+    if x < k[n - order - 1]:
+        cur = [Fraction(1) if (k[i] <= x < k[i + 1]) else Fraction(0) for i in range(n - 1)]
+    else:
+        cur = [Fraction(1) if (k[i] < x <= k[i + 1]) else Fraction(0) for i in range(n - 1)]
     for p in range(1, order + 1):
         nxt = []
         for i in range(n - p - 1):
@@ -156,7 +169,7 @@ def grid_exact(case):
             idx = tuple((p // strides[d]) % t.naxes[d] for d in range(nd))
             cur[idx] = (Fraction(c), abs(Fraction(c)))
     for d in range(nd):
-        rows = [basis_rc(t.knots[d], t.orders[d], x) if math.isfinite(x) else {} for x in case.grids[d]]
+        rows = [basis_side(t.knots[d], t.orders[d], x) if math.isfinite(x) else {} for x in case.grids[d]]
         bycol = {}
         for r, row in enumerate(rows):
             for i, v in row.items():
@@ -244,6 +257,8 @@ class C17:
         self.harness = None
         self.model = None
         self.d17_skipped = [0]
+        self.lastknot = [0, 0, 0, 0]   # grid points with a coordinate on the last knot: agree with pointwise / differ / with a nonzero exact value / pointwise NaN (C01 residual)
+        self.lastknot_samples = []
     def build(self):
         if self.harness is None:
             self.harness = build_harness("C17_harness", ["C17_harness.cpp"], flavour="faithful", fitter=True)
@@ -332,7 +347,23 @@ class C17:
             for n, g in enumerate(itertools.product(*[range(l) for l in lens])):
                 xs = [c.grids[d][g[d]] for d in range(t.ndim)]
                 if not all(t.knots[d][0] < xs[d] < t.knots[d][-1] for d in range(t.ndim)):
-                    continue            # the property speaks of points strictly inside the knot range
+                    # the property speaks of points strictly inside the knot range. Beyond it (measured, never flagged): where the lookup
+                    # still succeeds — some x_d exactly ON THE LAST KNOT — C17_agrees_pointwise says the two agree as well (since fix
+                    # F30_1 the basis row there is the left limit; it used to be identically zero)
+                    if who == "cpp" and n < len(pw) and pw[n] != "-" and all(t.knots[d][0] < xs[d] <= t.knots[d][-1] for d in range(t.ndim)):
+                        pd0 = dfrom(int(pw[n].split("/")[0], 16))
+                        ev0, ea0 = exact.get(g, (Fraction(0), Fraction(0)))
+                        v0 = listed.get(g, 0.0)
+                        ok0 = (v0 == v0) and math.isfinite(v0) and math.isfinite(pd0) and abs(Fraction(v0) - Fraction(pd0)) <= 2 * K_of(t) * Fraction(1, 2 ** 53) * ea0 + ETA * (1 + ea0)
+                        if pd0 != pd0 and any(xs[d] == t.knots[d][t.naxes[d]] and t.knots[d][t.orders[d]] == t.knots[d][t.naxes[d]] for d in range(t.ndim)):
+                            self.lastknot[3] += 1       # pointwise NaN: the fully supported range is the single point x_d (C01's residual), as in scope
+                        else:
+                            self.lastknot[0 if ok0 else 1] += 1
+                            if not ok0 and len(self.lastknot_samples) < 3:
+                                self.lastknot_samples.append({"table": t.describe(), "x": [repr(x) for x in xs], "grid": repr(v0), "pointwise": repr(pd0), "exact": str(ev0)})
+                            if ev0 != 0:
+                                self.lastknot[2] += 1
+                    continue
                 if n >= len(pw) or pw[n] == "-":
                     continue            # lookup failure strictly inside the range is C04's business
                 pd, pf = [dfrom(int(h, 16)) for h in pw[n].split("/")]
@@ -349,7 +380,8 @@ class C17:
                     sig, why = "C17:%s:repeated-knot->NaN" % entry, "NaN"
                 elif any(xs[d] >= t.knots[d][t.naxes[d]] and sum(1 for kk in t.knots[d] if kk == xs[d]) >= t.orders[d] + 1 for d in range(t.ndim)):
                     # a knot of multiplicity >= order+1 at or above knots[naxes], strictly inside the range: the spline is discontinuous
-                    # there; pointwise evaluation is left-continuous from knots[naxes] upwards (C01), the grid basis right-continuous
+                    # there; pointwise evaluation is left-continuous from knots[naxes] upwards (C01) and so is, since fix F30_1, the grid
+                    # basis. A mismatch here is the regression of the former finding D30 (status fixed: reported as a violation).
                     sig, why = "C17:%s:one-sided-limits-differ-at-discontinuity" % entry, ("%r" % v if g in listed else "not listed (value zero)")
                 elif g not in listed:
                     sig, why = "C17:%s:unlisted-nonzero" % entry, "not listed (value zero)"
@@ -357,10 +389,6 @@ class C17:
                     sig, why = "C17:%s:value-mismatch" % entry, "%r" % v
                 msg = ("grid point %s = %s (strictly inside the knot range): grid evaluation gives %s, pointwise evaluation %r (double) / %r (float), exact %s, sum|terms| %s"
                        % (g, [repr(x) for x in xs], why, pd, pf, float(ev), float(ea)))
-                if sig.endswith(":one-sided-limits-differ-at-discontinuity"):
-                    if not any(f[0] == sig for f in fails):
-                        fails.append((sig, msg))
-                    continue            # a design-level difference (known finding): keep looking for other mismatches in this grid
                 fails.append((sig, msg))
                 break
         if iout["R"].get("cpp") != iout["R"].get("c") and not nan_eq_tokens(iout["R"].get("cpp") or [], iout["R"].get("c") or []):
@@ -501,6 +529,8 @@ class C17:
                 "grid_points_checked_against_pointwise": gp, "model_vs_impl_disagreeing_grids": ndiff, "disagreements": stats.get("diffs", [])[:5],
                 "oracle_failures": stats.get("oracle_failures", 0), "search_volume_after_break": searched, "corpus_cases": stats.get("corpus_cases", 0),
                 "grid_points_skipped_pointwise_NaN_D17": self.d17_skipped[0],
+                "beyond_scope_points_on_last_knot": {"agree_with_pointwise": self.lastknot[0], "differ": self.lastknot[1], "with_nonzero_exact_value": self.lastknot[2],
+                                                     "skipped_pointwise_NaN_D17": self.lastknot[3], "differ_samples": self.lastknot_samples},
                 "input_distribution": {"tables_by_ndim": dims, "case_kinds": kinds, "abscissa_region_classes": dist},
                 "remarks": ["an all-zero coefficient array makes ndsparse(0, ndim) throw (recorded, not flagged: the property speaks of values only)"]}
 
